@@ -133,7 +133,7 @@ class Conn:
         if k == 'origin-closes':
             ok = self._request('127.0.0.1', bye.port)
             self.connector = 'direct'
-            got = self.rest + recv_until_eof(self.sock, 5)
+            got = self.rest + recv_until_eof(self.sock, 5)[0]
             self.up, self.down = 0, len(got)
             self.terminal = 'Terminated'
             return True
